@@ -152,7 +152,7 @@ class BioSim:
 
         funcs: Dict[str, Any] = {}
         for k in KERNELS[:-1]:
-            funcs[k] = mk_inline(k)
+            funcs[self.fn[k].name] = mk_inline(k)        # the routine playing role k, under whatever name it has today
         for local, target in self.np_names.items():
             if target in ("max", "amax"):
                 funcs[local] = lambda ev, call: max(ev.ev(call.args[0]))
@@ -374,7 +374,7 @@ def eval_initial_scores(proj: Project, vectors: List[List[int]], improved: Optio
             for i in range(n):
                 r[i] = improved[k][i]
         return Sym("DELTA", (k,))
-    funcs["_improve_one_ranking"] = improve
+    funcs[proj.func(MOD, "_improve_one_ranking").name] = improve
     evl = Evaluator({}, funcs)
     evl.strict_index = True
     try:
@@ -475,7 +475,7 @@ def eval_departure(proj: Project, sc: Scenario, starters: List[List[set]]):
     funcs["Dataset"] = dataset_ctor
 
     def bio_ctor(ev, call):
-        return Obj("BIO", {"_starting_algorithms": []}, {"_departure_rankings": lambda ev2, c2, a, kw: ev2.call_user(
+        return Obj("BIO", {"_starting_algorithms": []}, {f.name: lambda ev2, c2, a, kw: ev2.call_user(
             f.node, [Obj("BIO", {"_starting_algorithms": []})] + a, kw)})
     funcs["BioConsert"] = bio_ctor
     helper = proj.lookup_method(cls, "_bucket_ids_with_mapping")
@@ -524,8 +524,8 @@ def eval_compute(proj: Project, sc: Scenario, departure: List[List[int]], final:
         return Obj("COSTS", methods={"flatten": lambda ev2, c2, a2, k2: Sym("C")})
 
     me = Obj("SELF", {"_starting_algorithms": []},
-             {"_departure_rankings": dep, "_bio_consert": bio, "pairwise_cost_matrix": pcm,
-              "get_full_name": lambda ev, call, a, kw: "NAME"})
+             {proj.method(cls, "_departure_rankings").name: dep, proj.method(cls, "_bio_consert").name: bio,
+              "pairwise_cost_matrix": pcm, "get_full_name": lambda ev, call, a, kw: "NAME"})
     funcs = np_funcs(mod)
     base_zeros = funcs.get("zeros")
 
